@@ -247,6 +247,7 @@ Definition err_holds (c : config) (k : cfg_err) : Prop :=
   | ECapLow => exists q, cap c = Some q /\ q < hd 0 intf
   | ECapWf i => exists q, cap c = Some q /\ (i < length intf)%nat /\
                           nth_error (moves c) i = Some Wf /\ q <= ens_interface intf i
+  | EEngineListShort => exists ee, ens_engs c = Some ee /\ (length ee < length intf)%nat
   | EEngineUndef e => exists ee, ens_engs c = Some ee /\ In e (concat ee) /\
                                  ~ In e (map fst (sections c))
   | EGmxDup => gmx_dup_holds c
@@ -256,8 +257,8 @@ Definition err_holds (c : config) (k : cfg_err) : Prop :=
 Lemma err_not_valid c k :
   k <> EGmxDup -> k <> EQuantisLm1 -> err_holds c k -> ~ valid c.
 Proof.
-  intros Hg Hq He V. destruct V as [V2 Vs Vn Vw Vm Vc Ve Vl].
-  destruct k as [| | | | | | | | |i|e|]; cbn in He.
+  intros Hg Hq He V. destruct V as [V2 Vs Vn Vw Vm Vc Vel Ve Vl].
+  destruct k as [| | | | | | | | |i| |e|]; cbn in He.
   - (* EFewIntf *) lia.
   - (* ELm1 *) destruct He as [v [H1 H2]]. specialize (Vl v H1). lra.
   - (* EQuantisLm1 *) now apply Hq.
@@ -269,6 +270,7 @@ Proof.
   - (* ECapLow *) destruct He as [q [H1 H2]]. destruct (Vc q H1) as [H3 _]. lra.
   - (* ECapWf *) destruct He as [q [H1 [H2 [H3 H4]]]]. destruct (Vc q H1) as [_ [_ H5]].
     specialize (H5 i H2 H3). lra.
+  - (* EEngineListShort *) destruct He as [ee [H1 H2]]. specialize (Vel ee H1). lia.
   - (* EEngineUndef *) destruct He as [ee [H1 [H2 H3]]]. apply H3. eapply Ve; eauto.
   - (* EGmxDup *) now apply Hg.
 Qed.
@@ -314,20 +316,26 @@ Qed.
 
 (* ------------------------------------------------------------------ the engine stage *)
 Definition eng_clause (c : config) : Prop :=
+  (forall ee, ens_engs c = Some ee -> (length (interfaces c) <= length ee)%nat) /\
   forall ee e, ens_engs c = Some ee -> In e (concat ee) -> In e (map fst (sections c)).
 
 Lemma check_engines_cases c :
   (exists k, check_engines c = ConfigError k /\ err_holds c k /\ k <> EGmxDup /\ k <> EQuantisLm1)
   \/ (check_engines c = gmx_tail c /\ eng_clause c).
 Proof.
-  unfold check_engines, eng_clause, gmx_tail.
-  destruct (ens_engs c) as [ee|] eqn:Ee; [|right; split; [reflexivity | intros ? ? H; discriminate]].
+  unfold check_engines, check_engines_g, eng_clause, gmx_tail.
+  destruct (ens_engs c) as [ee|] eqn:Ee;
+    [|right; split; [reflexivity | split; [intros ? H | intros ? ? H]; discriminate]].
+  cbn [andb].
+  destruct (Nat.ltb_spec (length ee) (length (interfaces c))) as [Hlen|Hlen].
+  { left. exists EEngineListShort. repeat split; try discriminate. cbn. exists ee. auto. }
   destruct (find (fun k => negb (defined (sections c) k)) (unique_engines ee)) as [k|] eqn:Ef.
   - left. exists (EEngineUndef k). apply find_some in Ef. destruct Ef as [Hin Hd].
     repeat split; try discriminate. cbn. exists ee. split; [assumption|].
     split; [now apply unique_engines_In|].
     intro H. apply defined_spec in H. rewrite H in Hd. discriminate.
-  - right. split; [reflexivity|]. intros ee' e Hee Hin. injection Hee as <-.
+  - right. split; [reflexivity|]. split; [intros ee' Hee; injection Hee as <-; exact Hlen|].
+    intros ee' e Hee Hin. injection Hee as <-.
     rewrite find_none_iff in Ef. specialize (Ef e (proj2 (unique_engines_In e ee) Hin)).
     apply negb_false_iff in Ef. now apply defined_spec.
 Qed.
@@ -443,7 +451,7 @@ Lemma stage2_cases c :
   (exists k, stage2 c = ConfigError k /\ err_holds c k /\ k <> EGmxDup)
   \/ (valid c /\ stage2 c = gmx_tail c /\ quantis_val c && lm1_truthy c = false).
 Proof.
-  intros H2 Hl. unfold stage2.
+  intros H2 Hl. unfold stage2, stage2_g. fold (check_engines c).
   destruct (quantis_val c && lm1_truthy c) eqn:Eq.
   { left. exists EQuantisLm1. apply andb_true_iff in Eq. destruct Eq as [Hq Ht].
     repeat split; try discriminate; [assumption|]. now apply lm1_truthy_spec. }
@@ -462,7 +470,7 @@ Proof.
   destruct (check_cap_cases c (check_engines c) H2 Hm) as [[k [Hk [He [Hg _]]]] | [Hc Hcap]].
   { left. exists k. auto. }
   rewrite Hc.
-  destruct (check_engines_cases c) as [[k [Hk [He [Hg _]]]] | [Hc' Heng]].
+  destruct (check_engines_cases c) as [[k [Hk [He [Hg _]]]] | [Hc' [Hlen Heng]]].
   { left. exists k. auto. }
   right. split; [|split; [assumption | reflexivity]].
   constructor; assumption.
@@ -472,7 +480,7 @@ Lemma check_config_master c :
   (exists k, check_config c = ConfigError k /\ err_holds c k /\ k <> EGmxDup)
   \/ (valid c /\ check_config c = gmx_tail c /\ quantis_val c && lm1_truthy c = false).
 Proof.
-  unfold check_config.
+  unfold check_config, check_config_g. fold (stage2 c).
   destruct (Nat.ltb_spec (length (interfaces c)) 2) as [H2|H2].
   { left. exists EFewIntf. repeat split; try discriminate. exact H2. }
   assert (Hne : interfaces c <> []) by (intro E; rewrite E in H2; cbn in H2; lia).
@@ -590,17 +598,20 @@ Proof.
       split; [assumption|]. split; [assumption|]. intros i Hi Hw'.
       rewrite forallb_seq_spec in H4. specialize (H4 i Hi). cbv beta in H4.
       rewrite Hw' in H4. now apply qlt_spec.
-    + intros ee e Hee Hin. rewrite Hee in He. rewrite forallb_forall in He.
-      apply mem_spec. now apply He.
+    + intros ee Hee. rewrite Hee in He. apply andb_true_iff in He. destruct He as [He _].
+      now apply Nat.leb_le in He.
+    + intros ee e Hee Hin. rewrite Hee in He. apply andb_true_iff in He. destruct He as [_ He].
+      rewrite forallb_forall in He. apply mem_spec. now apply He.
     + intros v Hv. rewrite Hv in Hl. now apply qlt_spec.
-  - intros [V2 Vs Vn Vw Vm Vc Ve Vl]. repeat split; try assumption.
+  - intros [V2 Vs Vn Vw Vm Vc Vel Ve Vl]. repeat split; try assumption.
     + destruct (cap c) as [q|]; [|reflexivity]. destruct (Vc q eq_refl) as [H1 [H3 H4]].
       repeat rewrite andb_true_iff. repeat split; try (now apply qle_spec).
       apply forallb_seq_spec. intros i Hi.
       destruct (nth_error (moves c) i) as [[|]|] eqn:Em; try reflexivity.
       apply qlt_spec. now apply H4.
-    + destruct (ens_engs c) as [ee|] eqn:Ee; [|reflexivity]. apply forallb_forall.
-      intros e He. apply mem_spec. eapply Ve; eauto.
+    + destruct (ens_engs c) as [ee|] eqn:Ee; [|reflexivity]. apply andb_true_iff. split.
+      * apply Nat.leb_le. now apply Vel.
+      * apply forallb_forall. intros e He. apply mem_spec. eapply Ve; eauto.
     + destruct (lm1_val c) as [v|] eqn:El; [|reflexivity]. apply qlt_spec. now apply Vl.
 Qed.
 
@@ -630,7 +641,7 @@ Lemma default_cap_has_room c :
   valid c -> forall i, (i < length (interfaces c))%nat ->
   ens_interface (interfaces c) i < last (interfaces c) 0.
 Proof.
-  intros V i Hi. destruct V as [V2 Vs Vn _ _ _ _ _]. unfold ens_interface.
+  intros V i Hi. destruct V as [V2 Vs Vn _ _ _ _ _ _]. unfold ens_interface.
   rewrite last_nth. apply sorted_nodup_lt; try assumption. lia.
 Qed.
 
@@ -714,6 +725,9 @@ Proof.
   apply (v_engines _ A _ name_engine0 E). cbn. now left.
 Qed.
 
+Lemma setup_config_eq c : setup_config c = (normalise c, check_config (normalise c)).
+Proof. reflexivity. Qed.
+
 Lemma setup_config_spec c :
   let '(c', r) := setup_config c in
   c' = normalise c /\ r = check_config (normalise c) /\ normalise c' = c' /\
@@ -723,7 +737,7 @@ Lemma setup_config_spec c :
    ens_engs c' = Some ([name_engine0] :: map (fun _ => [name_engine]) (tl (interfaces c))) /\
    In name_engine0 (map fst (sections c))).
 Proof.
-  unfold setup_config. cbn zeta.
+  rewrite setup_config_eq.
   split; [reflexivity|]. split; [reflexivity|]. split; [apply normalise_idempotent|].
   split; [apply accept_sound|]. split; [apply reject_is_config_error|].
   split; [apply no_index_error | apply quantis_engine0_checked].
@@ -736,7 +750,7 @@ Lemma setup_from_none steps cur c :
   setup_from steps cur c = None <->
   exists k, cur = Some k /\ (cstep k = steps \/ paths_present k = false).
 Proof.
-  unfold setup_from. destruct cur as [k|].
+  unfold setup_from, setup_from_g. destruct cur as [k|].
   - destruct (Z.eqb_spec (cstep k) steps) as [E|E].
     + split; [intros _; exists k; auto | reflexivity].
     + destruct (paths_present k) eqn:P; cbn.
@@ -749,7 +763,7 @@ Qed.
 Lemma setup_from_some steps cur c o :
   setup_from steps cur c = Some o -> o = setup_config c.
 Proof.
-  unfold setup_from. destruct cur as [k|]; [|intros H; now inversion H].
+  unfold setup_from, setup_from_g. destruct cur as [k|]; [|intros H; now inversion H].
   destruct (cstep k =? steps)%Z; [discriminate|].
   destruct (negb (paths_present k)); [discriminate|]. intros H; now inversion H.
 Qed.
@@ -758,7 +772,7 @@ Lemma setup_from_continues steps k c :
   cstep k <> steps -> paths_present k = true ->
   setup_from steps (Some k) c = Some (setup_config c).
 Proof.
-  intros E P. unfold setup_from. destruct (Z.eqb_spec (cstep k) steps) as [E'|_]; [contradiction|].
+  intros E P. unfold setup_from, setup_from_g. destruct (Z.eqb_spec (cstep k) steps) as [E'|_]; [contradiction|].
   now rewrite P.
 Qed.
 
@@ -793,7 +807,8 @@ Lemma fresh_rejects_invalid steps c :
             err_holds (normalise c) e.
 Proof.
   intros NV. destruct (reject_is_config_error _ NV) as [e [E H]].
-  exists e. split; [|exact H]. cbn. unfold setup_config. now rewrite E.
+  exists e. split; [|exact H]. change (setup_from steps None c) with (Some (setup_config c)).
+  now rewrite setup_config_eq, E.
 Qed.
 
 Lemma restart_rejects_invalid steps k c :
@@ -813,7 +828,176 @@ Lemma sampling_starts_iff steps cur c :
 Proof.
   split.
   - intros [c' H]. split; [congruence|]. apply setup_from_some in H.
-    unfold setup_config in H. now inversion H.
+    rewrite setup_config_eq in H. now inversion H.
   - intros [NN E]. destruct (setup_from steps cur c) as [o|] eqn:H; [|contradiction].
-    apply setup_from_some in H. subst o. exists (normalise c). unfold setup_config. now rewrite E.
+    apply setup_from_some in H. subst o. exists (normalise c). now rewrite setup_config_eq, E.
+Qed.
+
+(* ------------------------------------------------------------------ the engine list and the first picks *)
+
+(* what is accepted has an engine list (check_config reads it) ... *)
+Lemma accepted_has_engine_list c : check_config c = Ok -> exists ee, ens_engs c = Some ee.
+Proof.
+  intro H. apply accept_exact in H. destruct H as [_ [_ Hg]]. unfold gmx_tail in Hg.
+  destruct (ens_engs c) as [ee|]; [eauto | discriminate].
+Qed.
+
+(* ... and every ensemble finds its entry there: prep_md_items' ens_engs[ens_num + 1] is in range
+   for each of the n ensembles, and every engine named by the entry has a table *)
+Lemma valid_picks_defined c ee :
+  valid c -> ens_engs c = Some ee -> forall i, (i < length (interfaces c))%nat ->
+  exists l, pick_engines c i = Some l /\ forall e, In e l -> In e (map fst (sections c)).
+Proof.
+  intros V Hee i Hi. unfold pick_engines. rewrite Hee.
+  pose proof (v_englen _ V _ Hee) as Hl.
+  destruct (nth_error ee i) as [l|] eqn:En; [|apply nth_error_None in En; lia].
+  exists l. split; [reflexivity|]. intros e He.
+  apply (v_engines _ V ee e Hee). apply in_concat. exists l. split; [|assumption].
+  eapply nth_error_In; eauto.
+Qed.
+
+Lemma accepted_picks_defined c :
+  check_config c = Ok -> forall i, (i < length (interfaces c))%nat ->
+  exists l, pick_engines c i = Some l /\ forall e, In e l -> In e (map fst (sections c)).
+Proof.
+  intros A. destruct (accepted_has_engine_list c A) as [ee Hee].
+  exact (valid_picks_defined c ee (accept_sound c A) Hee).
+Qed.
+
+(* a list with fewer entries than interfaces is invalid, hence a configuration error *)
+Lemma short_engine_list_invalid c ee :
+  ens_engs c = Some ee -> (length ee < length (interfaces c))%nat -> ~ valid c.
+Proof. intros Hee Hl V. pose proof (v_englen _ V _ Hee). lia. Qed.
+
+Lemma short_engine_list_rejected c ee :
+  ens_engs c = Some ee -> (length ee < length (interfaces c))%nat ->
+  exists k, check_config c = ConfigError k /\ err_holds c k.
+Proof. intros Hee Hl. apply reject_is_config_error. eapply short_engine_list_invalid; eauto. Qed.
+
+(* through setup_config: an explicit (non-empty) list is kept by the defaults, so a short one is
+   still short when check_config sees it; the default list has one entry per interface *)
+Lemma explicit_engine_list_kept c ee :
+  ens_engs c = Some ee -> ee <> [] ->
+  ens_engs (normalise c) = Some ee /\ interfaces (normalise c) = interfaces c.
+Proof.
+  intros Hee Hne. split; [|apply normalise_keeps].
+  rewrite normalise_engines. unfold has_ens_engs. rewrite Hee.
+  destruct ee; [congruence | reflexivity].
+Qed.
+
+Lemma setup_short_engine_list_invalid c ee :
+  ens_engs c = Some ee -> ee <> [] -> (length ee < length (interfaces c))%nat ->
+  ~ valid (normalise c).
+Proof.
+  intros Hee Hne Hl. destruct (explicit_engine_list_kept c ee Hee Hne) as [E I].
+  apply (short_engine_list_invalid _ ee E). now rewrite I.
+Qed.
+
+Lemma default_engine_list_length c :
+  has_ens_engs c = false ->
+  exists ee, ens_engs (normalise c) = Some ee /\ length ee = length (interfaces c).
+Proof.
+  intros H. rewrite normalise_engines, H. eexists. split; [reflexivity|].
+  destruct (interfaces c); cbn; [reflexivity|]. now rewrite map_length.
+Qed.
+
+(* ------------------------------------------------------------------ the code before the repair *)
+
+(* check_cap either falls through to what follows or does not look at it *)
+Lemma check_cap_rest c r1 r2 :
+  (check_cap c r1 = r1 /\ check_cap c r2 = r2) \/ check_cap c r1 = check_cap c r2.
+Proof.
+  unfold check_cap. destruct (cap c) as [q|]; [|left; auto].
+  destruct (last_error (interfaces c)) as [il|]; [|right; reflexivity].
+  destruct (qlt il q); [right; reflexivity|].
+  destruct (hd_error (interfaces c)) as [i0|]; [|right; reflexivity].
+  destruct (qlt q i0); [right; reflexivity|].
+  destruct (wf_loop (interfaces c) q 0 (firstn (length (interfaces c)) (moves c)));
+    [left; auto | right; reflexivity | right; reflexivity].
+Qed.
+
+Definition engine_list_short (c : config) : Prop :=
+  exists ee, ens_engs c = Some ee /\ (length ee < length (interfaces c))%nat.
+
+Lemma check_engines_g_cases c :
+  check_engines_g false c = check_engines_g true c \/
+  (check_engines_g true c = ConfigError EEngineListShort /\ engine_list_short c).
+Proof.
+  unfold check_engines_g, engine_list_short. destruct (ens_engs c) as [ee|]; [|left; reflexivity].
+  cbn [andb]. destruct (Nat.ltb_spec (length ee) (length (interfaces c))) as [H|H].
+  - right. split; [reflexivity|]. exists ee. auto.
+  - left. reflexivity.
+Qed.
+
+Lemma stage2_g_cases c :
+  stage2_g false c = stage2_g true c \/
+  (stage2_g true c = ConfigError EEngineListShort /\ engine_list_short c).
+Proof.
+  unfold stage2_g.
+  destruct (quantis_val c && lm1_truthy c); [left; reflexivity|].
+  destruct (Z.of_nat (length (interfaces c)) - 1 <? workers c)%Z; [left; reflexivity|].
+  destruct (negb (list_qeqb (py_sorted (interfaces c)) (interfaces c))); [left; reflexivity|].
+  destruct (negb (length (py_set (interfaces c)) =? length (interfaces c))%nat); [left; reflexivity|].
+  destruct (length (moves c) <? length (interfaces c))%nat; [left; reflexivity|].
+  destruct (check_cap_rest c (check_engines_g false c) (check_engines_g true c)) as [[H1 H2]|H].
+  - rewrite H1, H2. apply check_engines_g_cases.
+  - left. exact H.
+Qed.
+
+(* the two variants differ only on a short engine list, which the repaired code turns down *)
+Lemma before_fix_cases c :
+  check_config_before_fix c = check_config c \/
+  (check_config c = ConfigError EEngineListShort /\ engine_list_short c).
+Proof.
+  unfold check_config_before_fix, check_config, check_config_g.
+  destruct (length (interfaces c) <? 2)%nat; [left; reflexivity|].
+  unfold check_lm1. destruct (lm1_val c) as [v|]; [|apply stage2_g_cases].
+  destruct (hd_error (interfaces c)) as [i0|]; [|left; reflexivity].
+  destruct (qle i0 v); [left; reflexivity | apply stage2_g_cases].
+Qed.
+
+Lemma before_fix_agrees c :
+  (forall ee, ens_engs c = Some ee -> (length (interfaces c) <= length ee)%nat) ->
+  check_config_before_fix c = check_config c.
+Proof.
+  intros H. destruct (before_fix_cases c) as [E | [_ [ee [Hee Hl]]]]; [exact E|].
+  specialize (H ee Hee). lia.
+Qed.
+
+(* whatever the code before the repair accepted beyond the repaired code has a short list, and one
+   of its ensembles then finds no entry: the first pick of that ensemble raises IndexError *)
+Lemma before_fix_accepts c :
+  check_config_before_fix c = Ok ->
+  check_config c = Ok \/
+  (check_config c = ConfigError EEngineListShort /\
+   exists i, (i < length (interfaces c))%nat /\ pick_engines c i = None).
+Proof.
+  intros A. destruct (before_fix_cases c) as [E | [E [ee [Hee Hl]]]].
+  - left. now rewrite <- E.
+  - right. split; [exact E|]. exists (length ee). split; [exact Hl|].
+    unfold pick_engines. rewrite Hee. apply nth_error_None. lia.
+Qed.
+
+(* the witness: three interfaces, ensemble_engines = [["engine"]], a table [engine].  The code
+   before the repair lets it through setup_config (any route) and sampling starts; ensembles
+   [0+] and [1+] have no entry; the repaired code answers with the configuration error. *)
+Definition short_list_witness : config :=
+  mkC [0; 1; 2] 1%Z [Sh; Sh; Sh] None None None None None (Some [[name_engine]])
+      [(name_engine, mkS (Some OtherClass) (Some 0%Z) 7%Z)].
+
+Lemma short_engine_list_before_fix_refuted :
+  exists c i,
+    snd (setup_config_g false c) = Ok /\
+    sampling_starts (setup_from_g false 10 None c) /\
+    sampling_starts (setup_from_g false 10 (Some (mkCur 4 true)) c) /\
+    (i < length (interfaces (normalise c)))%nat /\ pick_engines (normalise c) i = None /\
+    snd (setup_config c) = ConfigError EEngineListShort /\ ~ valid (normalise c).
+Proof.
+  exists short_list_witness, 1%nat.
+  split; [vm_compute; reflexivity|].
+  split; [eexists; vm_compute; reflexivity|].
+  split; [eexists; vm_compute; reflexivity|].
+  split; [vm_compute; lia|]. split; [vm_compute; reflexivity|].
+  split; [vm_compute; reflexivity|].
+  intro V. apply validb_spec in V. vm_compute in V. discriminate.
 Qed.
